@@ -347,7 +347,9 @@ func VerifC12_decode() {
 	first := len(g.out)
 	g.out = append(g.out, ':', '7', '\r', '\n')
 	src := verifNewChunks(g.out, verifParam("all_splits", 0) != 0)
-	size := []int{16, 4096}[verifChoose(2)]
+	// 32 bytes is the smallest read buffer the client accepts (ReadBufferEachConn < 32 falls back to
+	// the default: a header line must fit, readI uses ReadSlice)
+	size := []int{32, 4096}[verifChoose(2)]
 	r := bufio.NewReaderSize(src, size)
 	m, err := readNextMessage(r)
 	verifAssert(err == nil, "well-formed frame decodes without error")
@@ -373,7 +375,7 @@ func VerifC12_stream() {
 	first := len(g.out)
 	g.out = append(g.out, ':', '7', '\r', '\n')
 	src := verifNewChunks(g.out, verifParam("all_splits", 0) != 0)
-	r := bufio.NewReaderSize(src, 16)
+	r := bufio.NewReaderSize(src, 32)
 	var sink verifSink
 	n, err, clean := streamTo(r, &sink)
 	switch {
